@@ -18,6 +18,10 @@ type LibOpt struct {
 	Separate    bool // init segment and media segments handled as separate files
 	Extract     bool // Separate only: protection data re-read from the encrypted init with ExtractInitProtectData
 	EncodeSW    bool // serialise with File.EncodeSW (slice writer over caller-owned storage) instead of File.Encode
+	// SinfFirst (encrypt side): after InitProtect the sinf box of every protected sample entry is moved in
+	// front of the entry's other children (the order of a sample entry's child boxes is free; other
+	// packagers do not put sinf last)
+	SinfFirst bool
 	// RotateKeys > 0: key rotation. The key is a parameter of every EncryptFragment and
 	// DecryptSegment/DecryptFragment call; with rotation, fragment number g of the file
 	// (0-based, counted over all segments in file order) is encrypted and decrypted with
@@ -191,6 +195,9 @@ func EncryptLib(c *Case, cfg Config, o LibOpt) (*EncOut, error) {
 		if err != nil {
 			return nil, stage("InitProtect", err)
 		}
+		if o.SinfFirst {
+			sinfFirst(f.Init)
+		}
 		g := 0
 		for _, s := range f.Segments {
 			for _, fr := range s.Fragments {
@@ -218,6 +225,9 @@ func EncryptLib(c *Case, cfg Config, o LibOpt) (*EncOut, error) {
 	ipd, err := mp4.InitProtect(fi.Init, cfg.Key, cfg.IV, cfg.Scheme, kid, psshs)
 	if err != nil {
 		return nil, stage("InitProtect", err)
+	}
+	if o.SinfFirst {
+		sinfFirst(fi.Init)
 	}
 	encInit, err := encodeFile(fi, o.EncodeSW)
 	if err != nil {
@@ -395,4 +405,33 @@ func DecodeCheck(b []byte) error {
 		return fmt.Errorf("DecodeFileSR: %w", err)
 	}
 	return nil
+}
+
+// sinfFirst moves the sinf child of every protected sample entry to the front of its children.
+func sinfFirst(init *mp4.InitSegment) {
+	if init == nil || init.Moov == nil {
+		return
+	}
+	front := func(ch []mp4.Box) {
+		for i, b := range ch {
+			if b.Type() == "sinf" {
+				copy(ch[1:i+1], ch[:i])
+				ch[0] = b
+				return
+			}
+		}
+	}
+	for _, t := range init.Moov.Traks {
+		if t.Mdia == nil || t.Mdia.Minf == nil || t.Mdia.Minf.Stbl == nil || t.Mdia.Minf.Stbl.Stsd == nil {
+			continue
+		}
+		for _, e := range t.Mdia.Minf.Stbl.Stsd.Children {
+			switch v := e.(type) {
+			case *mp4.AudioSampleEntryBox:
+				front(v.Children)
+			case *mp4.VisualSampleEntryBox:
+				front(v.Children)
+			}
+		}
+	}
 }
